@@ -1,7 +1,8 @@
 """Engine P: symbolic execution of inputlayer query plans (IR JSON dumped from the real
-pipeline) and of reference Datalog semantics, over a symbolic extensional database.
+pipeline) over a symbolic extensional database.
 
-A table is a list of Row(present: z3 Bool, cols: [z3 Int]).  Bags are represented by
+A table is a list of Row(p, c): p = presence condition, c = column terms (see smt.py: Python
+values when concrete, SMT-LIB strings when symbolic).  Bags are represented by
 unit-multiplicity slots, exactly like the engine's (tuple, diff=+1) updates before
 consolidation; `Distinct`/the final `distinct_core` turn a bag into a set.
 
@@ -9,12 +10,15 @@ The operator semantics follow src/code_generator/mod.rs generate_collection_tupl
 (see /verif/DESIGN.md section 2.2.2).  Anything outside the Int fragment raises
 Unsupported, which the drivers count and report (never treated as a pass).
 """
-import itertools
-import z3
+import smt as S
+from smt import AND, OR, NOT, EQ, CMP, ADD, SUB, MUL, ITE, SUM, IMPLIES
 
 
 class Unsupported(Exception):
     pass
+
+
+MAX_ROWS = 700
 
 
 class Row:
@@ -25,66 +29,15 @@ class Row:
         self.c = list(c)
 
 
-def T(x=True):
-    return z3.BoolVal(bool(x))
-
-
-def AND(*xs):
-    xs = [x for x in xs if not z3.is_true(x)]
-    if any(z3.is_false(x) for x in xs):
-        return z3.BoolVal(False)
-    if not xs:
-        return z3.BoolVal(True)
-    return xs[0] if len(xs) == 1 else z3.And(*xs)
-
-
-def OR(*xs):
-    xs = [x for x in xs if not z3.is_false(x)]
-    if any(z3.is_true(x) for x in xs):
-        return z3.BoolVal(True)
-    if not xs:
-        return z3.BoolVal(False)
-    return xs[0] if len(xs) == 1 else z3.Or(*xs)
-
-
-def NOT(x):
-    if z3.is_true(x):
-        return z3.BoolVal(False)
-    if z3.is_false(x):
-        return z3.BoolVal(True)
-    return z3.Not(x)
-
-
 def tup_eq(a, b):
     if len(a) != len(b):
-        return z3.BoolVal(False)
-    return AND(*[x == y for x, y in zip(a, b)])
+        return False
+    return AND(*[EQ(x, y) for x, y in zip(a, b)])
 
 
-def cmp_z3(op, a, b):
-    return {"Eq": a == b, "Ne": a != b, "Lt": a < b, "Le": a <= b, "Gt": a > b, "Ge": a >= b}[op]
-
-
-def trunc_div(a, b):
-    """Rust i64 `/` (truncating) for a symbolic a and concrete non-zero b."""
-    if not isinstance(b, int) or b == 0:
-        raise Unsupported("div by non-constant or zero")
-    q = z3.If(a >= 0, a / abs(b), -((-a) / abs(b)))
-    return q if b > 0 else -q
-
-
-def trunc_mod(a, b):
-    if not isinstance(b, int) or b == 0:
-        raise Unsupported("mod by non-constant or zero")
-    return a - trunc_div(a, b) * b
-
-
-def as_const(e):
-    if isinstance(e, int):
-        return e
-    if z3.is_int_value(e):
-        return e.as_long()
-    return None
+def named(rows):
+    """Name long presence conditions / columns so later operators reference them by symbol."""
+    return [Row(S.name_bool(r.p), [S.name_int(c) for c in r.c]) for r in rows]
 
 
 # ---------------------------------------------------------------------------------------
@@ -92,23 +45,32 @@ def as_const(e):
 # ---------------------------------------------------------------------------------------
 
 def sym_table(name, arity, n, tag=""):
-    return [Row(z3.Bool(f"{tag}{name}!p{i}"),
-                [z3.Int(f"{tag}{name}!{i}!{c}") for c in range(arity)]) for i in range(n)]
+    return [Row(S.bool_var(f"{tag}{name}!p{i}"),
+                [S.int_var(f"{tag}{name}!{i}!{c}") for c in range(arity)]) for i in range(n)]
 
 
 def edb_constraints(edb, vmax):
-    """EDB relations are sets of rows over [-vmax, vmax]; absent slots are canonical
-    (zeros, and absent slots come last) to cut symmetric models."""
+    """EDB relations are sets of rows over [-vmax, vmax]; absent slots come last (symmetry cut)."""
     cs = []
     for name, rows in edb.items():
         for i, r in enumerate(rows):
             for c in r.c:
-                cs.append(z3.And(c >= -vmax, c <= vmax))
+                cs.append(AND(CMP("Ge", c, -vmax), CMP("Le", c, vmax)))
             for j in range(i):
-                cs.append(z3.Not(z3.And(r.p, rows[j].p, tup_eq(r.c, rows[j].c))))
+                cs.append(NOT(AND(r.p, rows[j].p, tup_eq(r.c, rows[j].c))))
             if i > 0:
-                cs.append(z3.Implies(r.p, rows[i - 1].p))
+                cs.append(IMPLIES(r.p, rows[i - 1].p))
     return cs
+
+
+def edb_vars(edb):
+    out = []
+    for name, rows in edb.items():
+        for r in rows:
+            out.append((r.p, "Bool"))
+            for c in r.c:
+                out.append((c, "Int"))
+    return out
 
 
 # ---------------------------------------------------------------------------------------
@@ -119,32 +81,31 @@ def eval_arith(a, cols, vars_):
     """ast::ArithExpr as eval_arith_runtime evaluates it; returns (value, defined)."""
     k = a["a"]
     if k == "Const":
-        return z3.IntVal(a["val"]), T()
+        return a["val"], True
     if k == "Var":
         idx = vars_.get(a["name"])
         if idx is None or idx >= len(cols):
-            return z3.IntVal(0), T(False)
-        return cols[idx], T()
+            return 0, False
+        return cols[idx], True
     if k == "Bin":
         l, dl = eval_arith(a["l"], cols, vars_)
         r, dr = eval_arith(a["r"], cols, vars_)
         d = AND(dl, dr)
         op = a["op"]
         if op == "Add":
-            return l + r, d
+            return ADD(l, r), d
         if op == "Sub":
-            return l - r, d
+            return SUB(l, r), d
         if op == "Mul":
-            return l * r, d
-        rc = as_const(z3.simplify(r))
-        if rc is None:
+            return MUL(l, r), d
+        if not S.is_c(r):
             raise Unsupported("div/mod by non-constant")
-        if rc == 0:
-            return z3.IntVal(0), T(False)
+        if r == 0:
+            return 0, False
         if op == "Div":
-            return trunc_div(l, rc), d
+            return S.TDIV(l, r), d
         if op == "Mod":
-            return trunc_mod(l, rc), d
+            return S.TMOD(l, r), d
     raise Unsupported(f"arith {k}")
 
 
@@ -152,35 +113,35 @@ def eval_pred(p, cols):
     k = p["p"]
     n = len(cols)
     if k == "True":
-        return T()
+        return True
     if k == "False":
-        return T(False)
+        return False
     if k == "And":
         return AND(eval_pred(p["l"], cols), eval_pred(p["r"], cols))
     if k == "Or":
         return OR(eval_pred(p["l"], cols), eval_pred(p["r"], cols))
     if k == "ColConst":
         if p["col"] >= n:
-            return T(p["op"] == "Ne")
-        return cmp_z3(p["op"], cols[p["col"]], z3.IntVal(p["val"]))
+            return p["op"] == "Ne"
+        return CMP(p["op"], cols[p["col"]], p["val"])
     if k == "Cols":
         l, r, op = p["l"], p["r"], p["op"]
         if op in ("Eq", "Ne"):
             if l >= n and r >= n:
-                return T(op == "Eq")
+                return op == "Eq"
             if l >= n or r >= n:
-                return T(op == "Ne")
+                return op == "Ne"
         elif l >= n or r >= n:
-            return T(False)
-        return cmp_z3(op, cols[l], cols[r])
+            return False
+        return CMP(op, cols[l], cols[r])
     if k == "ColArith":
         v, d = eval_arith(p["expr"], cols, p["vars"])
         if p["col"] >= n:
-            return T(False)
-        return AND(d, cmp_z3(p["op"], cols[p["col"]], v))
+            return False
+        return AND(d, CMP(p["op"], cols[p["col"]], v))
     if k == "ArithConst":
         v, d = eval_arith(p["expr"], cols, p["vars"])
-        return AND(d, cmp_z3(p["op"], v, z3.IntVal(p["val"])))
+        return AND(d, CMP(p["op"], v, p["val"]))
     raise Unsupported(f"predicate {k}")
 
 
@@ -191,22 +152,21 @@ def eval_expr(e, cols):
             raise Unsupported("compute column out of range (Null)")
         return cols[e["idx"]]
     if k == "Int":
-        return z3.IntVal(e["val"])
+        return e["val"]
     if k == "Arith":
         l = eval_expr(e["l"], cols)
         r = eval_expr(e["r"], cols)
         op = e["op"]
         if op == "Add":
-            return l + r
+            return ADD(l, r)
         if op == "Sub":
-            return l - r
+            return SUB(l, r)
         if op == "Mul":
-            return l * r
+            return MUL(l, r)
         if op == "Mod":
-            rc = as_const(z3.simplify(r))
-            if rc is None or rc == 0:
+            if not S.is_c(r) or r == 0:
                 raise Unsupported("mod by non-constant/zero (Null)")
-            return trunc_mod(l, rc)
+            return S.TMOD(l, r)
         raise Unsupported("compute Div yields Float64")
     raise Unsupported(f"expression {k}")
 
@@ -220,23 +180,27 @@ def project(cols, proj):
 # ---------------------------------------------------------------------------------------
 
 def distinct(rows):
+    rows = named(rows)
     out = []
     for j, r in enumerate(rows):
-        dup = OR(*[AND(rows[i].p, tup_eq(rows[i].c, r.c)) for i in range(j) if len(rows[i].c) == len(r.c)])
-        out.append(Row(AND(r.p, NOT(dup)), r.c))
+        if r.p is False:
+            continue
+        dup = OR(*[AND(rows[i].p, tup_eq(rows[i].c, r.c)) for i in range(j)
+                   if rows[i].p is not False and len(rows[i].c) == len(r.c)])
+        out.append(Row(S.name_bool(AND(r.p, NOT(dup))), r.c))
     return out
 
 
 class PlanEval:
     """Symbolic evaluator for IR JSON.  `env` maps relation name -> rows."""
 
-    def __init__(self, env, static_env=None, max_rows=4000):
+    def __init__(self, env, static_env=None, max_rows=MAX_ROWS):
         self.env = env
         self.static_env = static_env if static_env is not None else env
         self.max_rows = max_rows
 
     def ev(self, ir):
-        rows = self._ev(ir)
+        rows = [r for r in self._ev(ir) if r.p is not False]
         if len(rows) > self.max_rows:
             raise Unsupported(f"table too large ({len(rows)} rows)")
         return rows
@@ -257,7 +221,9 @@ class PlanEval:
                 out.append(Row(p, c))
             return out
         if op == "Join":
-            L, R = self.ev(ir["left"]), self.ev(ir["right"])
+            L, R = named(self.ev(ir["left"])), named(self.ev(ir["right"]))
+            if len(L) * len(R) > self.max_rows:
+                raise Unsupported(f"table too large ({len(L) * len(R)} rows)")
             lk, rk = ir["lk"], ir["rk"]
             out = []
             cart = not lk and not rk
@@ -271,7 +237,9 @@ class PlanEval:
                         out.append(Row(AND(a.p, b.p, cond), cols))
             return out
         if op == "JoinFlatMap":
-            L, R = self.ev(ir["left"]), self.ev(ir["right"])
+            L, R = named(self.ev(ir["left"])), named(self.ev(ir["right"]))
+            if len(L) * len(R) > self.max_rows:
+                raise Unsupported(f"table too large ({len(L) * len(R)} rows)")
             lk, rk = ir["lk"], ir["rk"]
             out = []
             for a in L:
@@ -286,8 +254,8 @@ class PlanEval:
                     out.append(Row(p, c))
             return out
         if op == "Antijoin":
-            L = self.ev(ir["left"])
-            R = PlanEval(self.static_env, self.static_env, self.max_rows).ev(ir["right"])
+            L = named(self.ev(ir["left"]))
+            R = named(PlanEval(self.static_env, self.static_env, self.max_rows).ev(ir["right"]))
             lk, rk = ir["lk"], ir["rk"]
             out = []
             for a in L:
@@ -307,7 +275,7 @@ class PlanEval:
             for r in self.ev(ir["input"]):
                 c = list(r.c)
                 for _name, e in ir["exprs"]:
-                    c.append(eval_expr(e, c))
+                    c.append(S.name_int(eval_expr(e, c)))
                 out.append(Row(r.p, c))
             return out
         if op == "Aggregate":
@@ -315,38 +283,47 @@ class PlanEval:
         raise Unsupported(f"operator {op}")
 
 
+def agg_value(f, same, xs, i):
+    """Aggregate over the slots j with same[j] (slot i is the representative, same[i] holds)."""
+    n = len(xs)
+    if f == "Count":
+        return SUM([ITE(sm, 1, 0) for sm in same])
+    if f == "Sum":
+        return SUM([ITE(same[j], xs[j], 0) for j in range(n)])
+    if f in ("Min", "Max"):
+        m = xs[i]
+        for j in range(n):
+            if j == i:
+                continue
+            better = CMP("Lt" if f == "Min" else "Gt", xs[j], m)
+            m = S.name_int(ITE(AND(same[j], better), xs[j], m))
+        return m
+    if f == "CountDistinct":
+        terms = []
+        for j in range(n):
+            first = NOT(OR(*[AND(same[k], EQ(xs[k], xs[j])) for k in range(j)]))
+            terms.append(ITE(AND(same[j], first), 1, 0))
+        return SUM(terms)
+    raise Unsupported(f"aggregate {f}")
+
+
 def aggregate(rows, group_by, aggs):
+    rows = named(rows)
     out = []
     keys = [project(r.c, group_by) for r in rows]
+    for f, col in aggs:
+        if not isinstance(f, str):
+            raise Unsupported("ranking aggregate")
+        if f != "Count" and any(col >= len(x.c) for x in rows):
+            raise Unsupported("aggregate column out of range")
     for i, r in enumerate(rows):
-        same = [AND(rows[j].p, tup_eq(keys[j], keys[i])) for j in range(len(rows))]
+        same = [S.name_bool(AND(rows[j].p, tup_eq(keys[j], keys[i]))) for j in range(len(rows))]
         rep = AND(r.p, NOT(OR(*[same[j] for j in range(i)])))
         vals = []
         for f, col in aggs:
-            if not isinstance(f, str):
-                raise Unsupported("ranking aggregate")
-            if f == "Count":
-                vals.append(z3.Sum([z3.If(s, 1, 0) for s in same]) if same else z3.IntVal(0))
-                continue
-            if any(col >= len(x.c) for x in rows):
-                raise Unsupported("aggregate column out of range")
-            if f == "Sum":
-                vals.append(z3.Sum([z3.If(same[j], rows[j].c[col], 0) for j in range(len(rows))]))
-            elif f in ("Min", "Max"):
-                m = r.c[col]
-                for j in range(len(rows)):
-                    better = rows[j].c[col] < m if f == "Min" else rows[j].c[col] > m
-                    m = z3.If(AND(same[j], better), rows[j].c[col], m)
-                vals.append(m)
-            elif f == "CountDistinct":
-                terms = []
-                for j in range(len(rows)):
-                    first = NOT(OR(*[AND(same[k], rows[k].c[col] == rows[j].c[col]) for k in range(j)]))
-                    terms.append(z3.If(AND(same[j], first), 1, 0))
-                vals.append(z3.Sum(terms))
-            else:
-                raise Unsupported(f"aggregate {f}")
-        out.append(Row(rep, keys[i] + vals))
+            xs = [x.c[col] if col < len(x.c) else 0 for x in rows]
+            vals.append(S.name_int(agg_value(f, same, xs, i)))
+        out.append(Row(S.name_bool(rep), keys[i] + vals))
     return out
 
 
@@ -355,15 +332,29 @@ def aggregate(rows, group_by, aggs):
 # ---------------------------------------------------------------------------------------
 
 def subset(A, B):
-    return AND(*[z3.Implies(a.p, OR(*[AND(b.p, tup_eq(a.c, b.c)) for b in B])) for a in A])
+    A, B = named(A), named(B)
+    return AND(*[IMPLIES(a.p, OR(*[AND(b.p, tup_eq(a.c, b.c)) for b in B])) for a in A])
 
 
 def set_eq(A, B):
-    return AND(subset(A, B), subset(B, A))
+    return AND(S.name_bool(subset(A, B)), S.name_bool(subset(B, A)))
 
 
 def nonempty(A):
     return OR(*[a.p for a in A])
+
+
+def concrete_set(rows):
+    """Rows -> set of tuples; all terms must be concrete."""
+    out = set()
+    for r in rows:
+        if r.p is True:
+            if not all(S.is_c(c) for c in r.c):
+                raise Unsupported("non-constant row in concrete evaluation")
+            out.add(tuple(r.c))
+        elif r.p is not False:
+            raise Unsupported("non-constant row in concrete evaluation")
+    return out
 
 
 # ---------------------------------------------------------------------------------------
@@ -374,13 +365,15 @@ def closure_rounds(edge_rows, start_rows, k):
     """T0 = start projected to 2 cols; T_{j+1} = distinct(T0 ++ {(x,z) | T_j(x,y), edge(y,z)})."""
     def p2(rows):
         return [Row(r.p, [r.c[0], r.c[1]]) for r in rows if len(r.c) >= 2]
-    e2 = p2(edge_rows)
+    e2 = named(p2(edge_rows))
     t0 = distinct(p2(start_rows))
     cur = t0
     hist = [cur]
     for _ in range(k):
-        step = [Row(AND(a.p, b.p, a.c[1] == b.c[0]), [a.c[0], b.c[1]]) for a in cur for b in e2]
-        cur = distinct(t0 + step)
+        if len(cur) * len(e2) > MAX_ROWS:
+            raise Unsupported(f"table too large ({len(cur) * len(e2)} rows)")
+        step = [Row(AND(a.p, b.p, EQ(a.c[1], b.c[0])), [a.c[0], b.c[1]]) for a in cur for b in e2]
+        cur = distinct(t0 + [r for r in step if r.p is not False])
         hist.append(cur)
     return hist
 
@@ -394,18 +387,23 @@ class ScriptResult:
         self.strategies = {}    # rel -> kind
 
 
-def worker_fn(W, arity):
-    return z3.Function(f"worker!{arity}", *([z3.IntSort()] * arity + [z3.IntSort()]))
+def worker_of(W, cols):
+    f = S.fun(f"worker!{len(cols)}", len(cols)) if cols else S.int_var("worker!0")
+    if not cols:
+        return S.MOD_POS(f, W)
+    if all(S.is_c(c) for c in cols):
+        # concrete tuples still get a symbolic worker (the hash is not modelled)
+        pass
+    return S.name_int(S.MOD_POS(S.APP(f, cols), W))
 
 
-def run_script(events, inputs, k, workers=1):
+def run_script(events, inputs, k):
     """Symbolically replay the recorded orchestration.
     events: list of dumper events for ONE execute_tuples call (concrete witness run).
-    inputs: name -> rows (symbolic input_tuples at the start of the call, magic seeds included).
-    Returns ScriptResult.  Recursion uses k rounds (+1 for the convergence side condition)."""
+    inputs: name -> rows (input_tuples at the start of the call, magic seeds included).
+    Recursion uses k rounds (+1 for the convergence side condition)."""
     res = ScriptResult()
     accumulated = {}
-    views_done = False
     i = 0
     n = len(events)
 
@@ -418,8 +416,7 @@ def run_script(events, inputs, k, workers=1):
         ev = events[i]
         kind = ev["ev"]
         if kind == "shared_view":
-            env = env_now()
-            rows = distinct(PlanEval(env).ev(ev["ir"]))
+            rows = distinct(PlanEval(env_now()).ev(ev["ir"]))
             accumulated[ev["name"]] = rows
             res.steps.append((ev["name"], rows))
             i += 1
@@ -439,11 +436,9 @@ def run_script(events, inputs, k, workers=1):
             elif nxt is not None and nxt["ev"] == "partitioned":
                 W = nxt["num_workers"]
                 parts = []
+                wenv = {name: [(r, worker_of(W, r.c)) for r in rws] for name, rws in env.items()}
                 for w in range(W):
-                    penv = {}
-                    for name, rws in env.items():
-                        penv[name] = [Row(AND(r.p, (worker_fn(W, len(r.c))(*r.c) if r.c
-                                                     else z3.Int("worker!0")) % W == w), r.c) for r in rws]
+                    penv = {name: [Row(AND(r.p, EQ(wk, w)), r.c) for r, wk in rws] for name, rws in wenv.items()}
                     parts.extend(distinct(PlanEval(penv).ev(ev["ir"])))
                 rows = distinct(parts)
                 res.partitioned.append((head, W))
@@ -460,11 +455,6 @@ def run_script(events, inputs, k, workers=1):
     return res
 
 
-def worker_constraints(res, env_rows=None):
-    """Range constraints for the uninterpreted worker functions used in run_script."""
-    return []
-
-
 def run_recursive(strategy_ev, env, rel, k):
     st = strategy_ev["strategy"]
     kind = st["kind"]
@@ -473,25 +463,25 @@ def run_recursive(strategy_ev, env, rel, k):
     if kind == "tc":
         edge = env.get(st["edge"], [])
         hist = closure_rounds(edge, edge, k + 1)
-        conv = subset(hist[k + 1], hist[k])
-        # the engine returns [] when the edge relation is empty; closure of [] is [] as well
-        return hist[k], conv
+        return hist[k], S.name_bool(subset(hist[k + 1], hist[k]))
     if kind == "bound_tc":
-        edge = env.get(st["edge"], [])
-        seeds = env.get(st["magic"], [])
+        edge = named(env.get(st["edge"], []))
+        seeds = named(env.get(st["magic"], []))
         bc = st["bound_col"]
-        start = [Row(AND(e.p, OR(*[AND(s.p, len(s.c) > 0 and s.c[0] == e.c[bc]) for s in seeds if s.c])), e.c)
+        start = [Row(AND(e.p, OR(*[AND(sd.p, EQ(sd.c[0], e.c[bc])) for sd in seeds if sd.c])), e.c)
                  for e in edge if len(e.c) == 2]
         hist = closure_rounds(edge, start, k + 1)
         fast = hist[k]
-        conv_fast = subset(hist[k + 1], hist[k])
-        # detect_bound_tc_pattern is data dependent: it only fires when the edge relation and
-        # the magic relation are non-empty and edge tuples have 2 columns; otherwise the general
-        # fixpoint runs.  Our witness run had them non-empty, so model both.
+        conv_fast = S.name_bool(subset(hist[k + 1], hist[k]))
+        # detect_bound_tc_pattern is data dependent: it only fires when the edge relation and the
+        # magic relation are non-empty (the witness run had them non-empty); otherwise the general
+        # fixpoint runs.  Model both.
+        cond = S.name_bool(AND(nonempty(edge), nonempty(seeds)))
+        if cond is True:
+            return fast, conv_fast
         gen, conv_gen = general_fixpoint(base_irs, rec_irs, env, rel, k)
-        cond = AND(nonempty(edge), nonempty(seeds))
         rows = [Row(AND(cond, r.p), r.c) for r in fast] + [Row(AND(NOT(cond), r.p), r.c) for r in gen]
-        conv = z3.If(cond, conv_fast, conv_gen)
+        conv = AND(IMPLIES(cond, conv_fast), IMPLIES(NOT(cond), conv_gen))
         return rows, conv
     if kind == "general":
         return general_fixpoint(base_irs, rec_irs, env, rel, k)
@@ -505,6 +495,7 @@ def general_fixpoint(base_irs, rec_irs, env, rel, k):
     base = []
     for b in base_irs:
         base.extend(PlanEval(env).ev(b))
+    base = named(base)
     cur = distinct(base)
     hist = [cur]
     for _ in range(k + 1):
@@ -515,5 +506,4 @@ def general_fixpoint(base_irs, rec_irs, env, rel, k):
             step.extend(PlanEval(live, static_env=env).ev(r))
         cur = distinct(base + step)
         hist.append(cur)
-    conv = subset(hist[k + 1], hist[k])
-    return hist[k], conv
+    return hist[k], S.name_bool(subset(hist[k + 1], hist[k]))
